@@ -337,3 +337,48 @@ package dag
 //@   loop 1 invariant true
 //@   call (*notifier).writeEvent #1 requires [new-event-on-own-db] ret(call (go-stoabs.WriteTx).Store #1) == p.db && ret(call errors.Is #1) == true && arg(call errors.Is #1, 0) == ret(call (*notifier).readEvent #1).1
 //@        && same(arg(2), event) && arg(1) == ret(call (go-stoabs.WriteTx).GetShelfWriter #1) && arg(call (go-stoabs.WriteTx).GetShelfWriter #1, 1) == ret(call (notifier).shelfName #1)
+
+// ---- C08: repair of one digest page ----
+
+//@ func tree.New
+//@   trusted
+//@   benign
+//@   ensures !isNilIface(result)
+//@ func tree.NewXor
+//@   trusted
+//@   benign
+//@ func (*dag).findBetweenLC
+//@   prop C08
+//@   assume-benign
+//@   ensures isNilIface(result.1) ==> forall k int :: 0 <= k && k < len(result.0) ==> !isNilIface(result.0[k])
+//@ func (*treeStore).getZeroTo
+//@   prop C08
+//@   assume-benign
+//@   ensures !isNilIface(result.0)
+//@ func (tree.Data).*
+//@   trusted
+//@   benign
+//@ func (tree.Tree).Root
+//@   trusted
+//@   benign
+//@   ensures !isNilIface(result)
+
+// The page is recomputed from exactly the transactions stored between its bounds; the stored page is
+// replaced only when it differs, by the recomputed digest, under the page's own start clock, and only
+// the dirty leaves are then written, in the same write transaction.
+//@ func (*xorTreeRepair).checkPage$1
+//@   prop C08
+//@   requires lcEnd == lcStart + PageSize && !isNilIface(calculatedXorTree) && f != nil && f.state != nil && f.state.graph != nil && f.state.xorTree != nil
+//@   loop 1 invariant true
+//@   call (*dag).findBetweenLC #1 requires [exactly-this-page] arg(1) == txn && arg(2) == lcStart && arg(3) == lcEnd
+//@   call (tree.Tree).Insert #1 requires [recomputed-from-the-stored-transactions] arg(0) == calculatedXorTree && same(arg(1), tx.Ref()) && arg(2) == tx.Clock()
+//@        && (exists k int :: 0 <= k && k < len(txs) && tx == txs[k])
+//@   call (tree.Tree).Replace #1 requires [differing-page-replaced-by-the-recomputed-digest] $done1 && arg(1) == lcStart && arg(0) == f.state.xorTree.tree
+//@        && arg(2) == ret(call (tree.Tree).Root #2) && arg(call (tree.Tree).Root #2, 0) == calculatedXorTree
+//@        && did(call (tree.Data).Empty #1) && ret(call (tree.Data).Empty #1) == false
+//@   call (*treeStore).writeWithoutLock #1 requires [persisted-in-the-same-tx] arg(1) == txn && arg(0) == f.state.xorTree && isNilIface(ret(call (tree.Tree).Replace #1))
+//@   ensures [nothing-replaced-when-the-page-agrees] did(call (tree.Data).Empty #1) && ret(call (tree.Data).Empty #1) == true ==> !did(call (tree.Tree).Replace #1) && !did(call (*treeStore).writeWithoutLock #1)
+
+//@ func (*xorTreeRepair).checkPage
+//@   prop C08
+//@   requires f.state != nil && f.state.graph != nil && f.state.xorTree != nil && !isNilIface(f.state.graph.db)
